@@ -237,14 +237,18 @@ namespace nmtools::index
             auto n = len(indices);
             if constexpr (meta::is_resizable_v<return_t>)
                 ret.resize(n);
+            // negative axis counts from the last axis (as in numpy)
+            auto m_axis = static_cast<nm_index_t>(axis);
+            if (m_axis < 0) {
+                m_axis += static_cast<nm_index_t>(n);
+            }
             for (size_t i=0; i<n; i++) {
-                using common_t = meta::promote_index_t<size_t,axis_t>;
                 auto idx = at(indices,i);
                 if constexpr (meta::is_index_v<repeats_t>) {
-                    at(ret,i) = (static_cast<common_t>(i)==static_cast<common_t>(axis) ? idx / repeats : idx);
+                    at(ret,i) = (static_cast<nm_index_t>(i)==m_axis ? idx / repeats : idx);
                 } else {
                     auto csum = cumsum(repeats);
-                    if (static_cast<common_t>(i)==static_cast<common_t>(axis)) {
+                    if (static_cast<nm_index_t>(i)==m_axis) {
                         // note: len(repeats) == shape[axis]
                         // simply find arg of repeats such that idx >= accumulate(repeats)[args]
                         auto f = [&](auto a){
